@@ -167,11 +167,18 @@ func c19RunLoop(c *vt.Ctx, s c19LoopScenario) {
 	ctl := ctlnode.VerifC19NewReconcileNode(cl, terwayTypes.Scheme, cloud, c19Recorder{}, true)
 	dmn := c19NewDaemonReconciler(cl)
 	req := reconcile.Request{NamespacedName: k8stypes.NamespacedName{Name: c19NodeName}}
-	controller := func(step string) {
+	// a refused reconcile is not a violation (nothing new is advertised): the first ones
+	// must succeed for the case to mean anything, later ones are only made visible and
+	// the node is inspected as it stands
+	controller := func(step string, must bool) {
 		_, err := ctl.Reconcile(ctx, req)
 		c19DrainNotify()
 		if err != nil {
-			c.Fatalf("%s: node controller Reconcile failed: %v", step, err)
+			c.Trace("%s: node controller Reconcile failed: %v", step, err)
+			if must {
+				c.Inconclusive("controller reconcile refused: " + step)
+			}
+			c.Label("reconcile-error:" + step)
 		}
 	}
 
@@ -192,10 +199,11 @@ func c19RunLoop(c *vt.Ctx, s c19LoopScenario) {
 	}
 
 	// ---- 1. node controller creates the CR
-	controller("first reconcile")
+	controller("first", true)
 	// ---- 2. daemon-side reconcile
 	if _, err := dmn.Reconcile(ctx, req); err != nil {
-		c.Fatalf("daemon-side Reconcile failed: %v", err)
+		c.Trace("daemon-side Reconcile failed: %v", err)
+		c.Inconclusive("daemon-side reconcile refused")
 	}
 	cr := &networkv1beta1.Node{}
 	if err := cl.Get(ctx, client.ObjectKey{Name: c19NodeName}, cr); err != nil {
@@ -226,7 +234,7 @@ func c19RunLoop(c *vt.Ctx, s c19LoopScenario) {
 
 	// ---- 3. node controller publishes
 	for i := 0; i < s.Rounds; i++ {
-		controller(fmt.Sprintf("reconcile #%d after the daemon reported", i+1))
+		controller("after-daemon", false)
 	}
 	got := &corev1.Node{}
 	if err := cl.Get(ctx, client.ObjectKey{Name: c19NodeName}, got); err != nil {
